@@ -257,6 +257,9 @@ def run(ctx: Ctx) -> None:
     ctx.rule('R14.2', 'task index injective in (job, core); result/progress file names depend on it', floor=4)
     ctx.rule('R14.3', 'bounded partial evaluation of the whole split over small configurations', floor=1)
     ctx.trust('glob order is the same on every node of one run (shared file system listing)')
-    _r143(ctx)
-    _r141(ctx)
-    _r142(ctx)
+    with ctx.part():
+        _r143(ctx)
+    with ctx.part():
+        _r141(ctx)
+    with ctx.part():
+        _r142(ctx)
